@@ -95,7 +95,7 @@ def run(tier: str, seed: int, t0: float) -> int:
     jobs.append((b, "G+T diff[s1t]"))
     # ---- T: real edit histories on bundled schemas
     from prosemirror.transform import Transform
-    for name in schemas.BUNDLED_PLUS:
+    for name in schemas.BUNDLED_PLUS + ["s4", "bm"]:        # (s4, bm: mark types that may occur twice in one set)
         sch2, js2, prs = universe.random_docs(name, 15 if not thorough else 150, rng)
         slices = []
         for toks, rd in prs:
@@ -143,6 +143,44 @@ def run(tier: str, seed: int, t0: float) -> int:
                         diff_event(b2, tr.doc.content, cp2.content, "text-edit")
                     except Exception:  # noqa: BLE001
                         pass
+            # mark-set variants: the same document with one mark of a text node swapped for a mark of the same type
+            # with another attribute value (sets with several marks of one type included)
+            import json as _json
+            base_toks = proj.proj(tr.doc)
+            cand = [i for i, tk in enumerate(base_toks) if tk["k"] in ("x", "l") and any(_json.loads(m["a"]) for m in tk["m"])]
+            def dup_first(tk_):
+                """index of a mark that is followed by another mark of the same type (None if there is none)"""
+                for k_, m_ in enumerate(tk_["m"]):
+                    if _json.loads(m_["a"]) and any(m2["t"] == m_["t"] for m2 in tk_["m"][k_ + 1:]):
+                        return k_
+                return None
+            dups = [i for i in cand if dup_first(base_toks[i]) is not None]
+            chosen_i = (dups if len(dups) <= 4 else rng.sample(dups, 4)) + (cand if len(cand) <= 3 else rng.sample(cand, 3))
+            for i in chosen_i:
+                tk = base_toks[i]
+                j = dup_first(tk) if (i in dups and rng.random() < 0.8) else rng.choice([k for k, m in enumerate(tk["m"]) if _json.loads(m["a"])])
+                attrs = _json.loads(tk["m"][j]["a"])
+                key = rng.choice(sorted(attrs))
+                attrs[key] = (attrs[key] + "9") if isinstance(attrs[key], str) else 99
+                var = [dict(t) for t in base_toks]
+                # the whole run of the text node gets the variant mark set
+                lo = i
+                while lo > 0 and base_toks[lo]["k"] == "x" and not base_toks[lo]["b"]:
+                    lo -= 1
+                hi = i
+                while hi + 1 < len(base_toks) and base_toks[hi + 1]["k"] == "x" and not base_toks[hi + 1]["b"]:
+                    hi += 1
+                newm = [dict(m) for m in tk["m"]]
+                newm[j] = {"t": newm[j]["t"], "a": _json.dumps(attrs, sort_keys=True, separators=(",", ":"))}
+                for q in range(lo if tk["k"] == "x" else i, (hi if tk["k"] == "x" else i) + 1):
+                    var[q]["m"] = newm
+                try:
+                    vd = proj.unproj(sch2, var, dict(tr.doc.attrs) if tr.doc.attrs else None)
+                    if var != base_toks:        # (compared as tokens: the library's own eq is part of what is tested)
+                        diff_event(b2, tr.doc.content, vd.content, "mark-variant")
+                        diff_event(b2, vd.content, tr.doc.content, "mark-variant")
+                except Exception:  # noqa: BLE001
+                    pass
             # an independent copy of the final document
             try:
                 cp = proj.unproj(sch2, proj.proj(tr.doc), dict(tr.doc.attrs) if tr.doc.attrs else None)
